@@ -3,7 +3,9 @@ import common
 from common import Case
 
 TITLE = 'IMP conversion is the official scale, odd and monotone, for every difference'
-REQUIRED = ['translated_imps_is_scale', 'translated_score_to_imp_is_sum',
+LEAN_TARGETS = ['BridgeVerif.Props.C16', 'BridgeVerif.Props.C16t']
+AUDIT_PROPS = ['C16', 'C16t']
+REQUIRED = ['C16t.translated_imps_is_scale', 'C16t.translated_score_to_imp_is_sum',
             'imps_is_scale', 'imps_bounds', 'imps_zero_below_20', 'imps_24_from_4000', 'imps_odd',
             'imps_monotone', 'score_to_imp_is_sum']
 RULE = ('every integer in [-4200, 4200] (all thresholds and all off-grid values), +-10^k and +-2^k up to 10^40 '
